@@ -9,6 +9,7 @@ Tokens:  field element `hex` (Fq/Fr) | `c0,c1` (Fq2) | 6 / 12 comma separated (F
 -/
 import PP.Model.Pairing
 import PP.Model.Mont
+import PP.Model.MontLimb
 import PP.Spec.Hash
 
 namespace PP.Drv
@@ -537,6 +538,8 @@ def runLine (line : String) : String :=
     | "g1" :: op :: args => groupOp g1Ctx op args
     | "g2" :: op :: args => groupOp g2Ctx op args
     | "mfq" :: op :: args => Mont.montOp Mont.fqP op (args.mapM parseHex) |>.map (fun o => o.elim "none" toHex)
+    | "lfq" :: op :: args => MontLimb.limbOp true op (args.mapM parseHex) |>.map (fun o => o.elim "none" toHex)
+    | "lfr" :: op :: args => MontLimb.limbOp false op (args.mapM parseHex) |>.map (fun o => o.elim "none" toHex)
     | "mfr" :: op :: args => Mont.montOp Mont.frP op (args.mapM parseHex) |>.map (fun o => o.elim "none" toHex)
     | ["repr", n, "read_be", bs] => do
         let n ← n.toNat?; let bs ← parseBytes bs
